@@ -27,13 +27,15 @@ class ATR(Indicator):
         return f"{self._name}_{self.period}"
 
     def _initialise(self):
-        self.add_sub_indicator(TR())
+        self.add_sub_indicator(TR(fullname_override=f"{self.name}_TR"))
 
     def _calculate_reading(self, index: int) -> float | dict | None:
         if self.prev_exists():
-            return (self.prev_reading() * (self.period - 1) + self.reading("TR")) / self.period
+            return (
+                self.prev_reading() * (self.period - 1) + self.reading(f"{self.name}_TR")
+            ) / self.period
 
-        if self.reading_period(self.period, "TR"):
-            return self.candles_sum(self.period, "TR") / self.period
+        if self.reading_period(self.period, f"{self.name}_TR"):
+            return self.candles_sum(self.period, f"{self.name}_TR") / self.period
 
         return None
